@@ -172,6 +172,7 @@ def check_C05(ctx: Ctx) -> None:
                 ctx.fail("writer/reader lookup mismatch", dict(rule=rule, size=size, keys=keys, response=line))
     # TermEncoder -> Decoder level (IRIs and literals through the real term encoder / decoder)
     _c05_term_level(ctx, r)
+    _c05_term_level_directed(ctx, r)
     _c05_stream_level(ctx, r)
 
 
@@ -213,11 +214,7 @@ def _c05_stream_level(ctx: Ctx, r) -> None:
             ctx.fail("reader out of step with the writer after graph starts / declarations", dict(request=reqs[-1], got=got[:1500], want=want[:20]))
     model = [m.replace("~", "") for m in __import__("common").run_driver(reqs)]
     for q, a, m in zip(reqs, resp, model):
-        ctx.corr_checked += 1
-        if a != m:
-            ctx.dist["disagree:SERSTEP"] += 1
-            if len(ctx.disagreements) < 20:
-                ctx.disagreements.append(dict(suite="SERSTEP", request=q[:4000], impl=a[:4000], model=m[:4000]))
+        ctx.compare("SERSTEP", q, a, m)
 
 
 def _c05_term_level(ctx: Ctx, r) -> None:
@@ -260,6 +257,55 @@ def _c05_term_level(ctx: Ctx, r) -> None:
         ctx.dist["term_level_histories"] += 1
         if not ok:
             ctx.fail("TermEncoder/Decoder mismatch", dict(preset=[pn, pp, pd], history=hist))
+
+
+def _c05_term_level_directed(ctx: Ctx, r) -> None:
+    """IRI histories through the real TermEncoder and the real Decoder, aimed at slot REUSE: one fixed local name under
+    pp+2 prefixes, exhaustively up to a length for prefix tables of 1..3 slots; and one prefix with 10..12 names over a
+    name table of 8 slots (long random histories). Every IRI must come back as written."""
+    from pyjelly.options import LookupPreset, StreamParameters, StreamTypes
+    from pyjelly.parse.decode import Decoder, ParserOptions
+    from pyjelly.integrations.generic.parse import GenericTriplesAdapter
+    from pyjelly.integrations.generic.serialize import GenericSinkTermEncoder
+
+    def run(pn, pp, history):
+        enc = GenericSinkTermEncoder(lookup_preset=LookupPreset(max_names=pn, max_prefixes=pp, max_datatypes=1))
+        dec = Decoder(GenericTriplesAdapter(ParserOptions(StreamTypes(1, 0), LookupPreset(pn, pp, 1), StreamParameters())))
+        for step, iri in enumerate(history):
+            msg = jelly.RdfIri()
+            try:
+                for row in enc.encode_iri(iri, msg):
+                    dec.decode_row(getattr(row, row.WhichOneof("row")))
+                got = dec.decode_term(msg)
+                got = getattr(got, "_iri", got)
+            except Exception as e:  # noqa: BLE001
+                got = "!" + type(e).__name__
+            if got != iri:
+                return step, got
+        return None
+
+    for pp, length in ((1, 6), (2, 7), (3, 6)) if ctx.quick() else ((1, 8), (2, 8), (3, 7)):
+        prefixes = [f"http://p{j}/" for j in range(pp + 2)]
+        n = 0
+        for hist in itertools.product(range(pp + 2), repeat=length):
+            if hist[0] != 0:
+                break  # histories are taken up to renaming of the first prefix
+            n += 1
+            bad = run(8, pp, [prefixes[j] + "x" for j in hist])
+            if bad is not None:
+                ctx.fail(f"IRI history through TermEncoder/Decoder: step {bad[0]} read back as {bad[1]!r}",
+                         dict(preset=[8, pp, 1], history=[prefixes[j] + "x" for j in hist]))
+                break
+        ctx.dist[f"directed_prefix_histories:pp={pp}:len={length}"] += n
+        ctx.evaluations += n
+    for _ in range(ctx.n(60, 600)):
+        k = r.choice([9, 10, 12])
+        hist = ["http://one/" + f"n{r.randrange(k)}" for _ in range(r.randint(20, 120))]
+        bad = run(8, r.choice([1, 4]), hist)
+        ctx.dist["directed_name_histories"] += 1
+        ctx.case(("term-directed", tuple(hist)), True)
+        if bad is not None:
+            ctx.fail(f"IRI history through TermEncoder/Decoder: step {bad[0]} read back as {bad[1]!r}", dict(preset=[8, 1, 1], history=hist))
 
 
 # ---------------------------------------------------------------------------------------------
@@ -554,6 +600,57 @@ def check_C19(ctx: Ctx) -> None:
             ctx.fail(f"compression contract broken: {bad}", dict(request=c["req"], referee=line[:1500]))
         # size never exceeds the naive encoding: measured against a no-table-reuse bound
         ctx.dist["bytes_total"] += len(c["bytes"])
+    _c19_rdflib(ctx, r)
+
+
+def _c19_rdflib(ctx: Ctx, r) -> None:
+    """The same audit on what the rdflib serializer writes: IRIs that recur ACROSS kinds of position (a named graph that
+    describes itself: graph name == subject; a declared namespace that is also a term), with the prefix table disabled
+    or IRIs without a namespace part, so that whole IRIs live in the name table."""
+    import rdflib
+
+    import rimpl
+
+    pool = ["urn:uuid:1", "urn:uuid:2", "mailto:a@b.c", "http://c19/x", "http://c19/y", "http://c19/ns#", "http://c19/ns#z", "plain"]
+    cases = []
+    for i in range(ctx.n(80, 800)):
+        cls = r.choice("QGT")
+        o = Opts(fs=r.choice([2, 250]), lt=0, gen=False, star=False, delim=True, ns=r.random() < 0.5,
+                 pn=r.choice([16, 64]), pp=r.choice([0, 0, 4]), pd=4)
+        iris = r.sample(pool, r.randint(2, 5))
+        if cls == "T":
+            store = rdflib.Graph(bind_namespaces="none")
+            for _ in range(r.randint(2, 6)):
+                store.add((rdflib.URIRef(r.choice(iris)), rdflib.URIRef(r.choice(iris)), rdflib.URIRef(r.choice(iris))))
+        else:
+            store = rdflib.Dataset()
+            for _ in range(r.randint(2, 6)):
+                gname = rdflib.URIRef(r.choice(iris))
+                # the graph describes itself: its name is also a subject / object inside it
+                store.add((gname if r.random() < 0.6 else rdflib.URIRef(r.choice(iris)), rdflib.URIRef(r.choice(iris)),
+                           rdflib.URIRef(r.choice(iris)) if r.random() < 0.7 else rdflib.Literal("v"), store.get_context(gname)))
+        if o.ns:
+            for j, iri in enumerate(r.sample(iris, min(2, len(iris)))):
+                store.bind(f"n{j}", rdflib.URIRef(iri), override=True, replace=True)
+        try:
+            req, resp, b = rimpl.run_serr(cls, o, store)
+        except Exception as e:  # noqa: BLE001
+            ctx.fail(f"rdflib serializer harness raised {type(e).__name__}: {e}", dict(iris=iris))
+            continue
+        ctx.case(("rdflib", req), True)
+        ctx.dist[f"rdflib_audits:{cls}:pp={o.pp}"] += 1
+        if resp.startswith("ok ") and resp.endswith(" end") and b:
+            cases.append((cls, req, resp, b))
+    ctx.corr("SERR", [c[1] for c in cases], [c[2] for c in cases])
+    got = __import__("common").run_driver([spec_line(c[3], True) for c in cases])
+    for (cls, req, resp, b), line in zip(cases, got):
+        verdict, _, audit = parse_spec_response(line)
+        if verdict != "ok":
+            ctx.fail(f"rdflib serializer output rejected by the referee ({verdict})", dict(request=req[:1500], referee=line[:800]))
+            continue
+        bad = {k: v for k, v in audit.items() if v and k != "g"}
+        if bad:
+            ctx.fail(f"compression contract broken by the rdflib serializer: {bad}", dict(request=req[:2000], referee=line[:1500]))
 
 
 # ---------------------------------------------------------------------------------------------
@@ -591,6 +688,26 @@ def check_C04(ctx: Ctx) -> None:
         if flat != s["events_text"] + " end":
             ctx.fail("parse_jelly_flat differs from the stream's denotation",
                      dict(bytes=b.hex(), cfg=s["cfg"], got=flat[:2000], want=s["events_text"][:2000]))
+        # the grouped parser: one sink per frame holding exactly the statements that frame denotes (counted from the
+        # frames themselves); the to-graph parser: one sink holding all of them
+        from pyjelly.integrations.generic.parse import parse_jelly_grouped, parse_jelly_to_graph
+        want_st = [stmt_text(e) for e in s["events"] if not hasattr(e, "prefix")]
+        per_frame, pos = [], 0
+        for f in s["frames"]:
+            n = sum(1 for row in f.rows if row.WhichOneof("row") in ("triple", "quad"))
+            per_frame.append(want_st[pos:pos + n])
+            pos += n
+        try:
+            got_grouped = [[stmt_text(x) for x in sk.store] for sk in parse_jelly_grouped(io.BytesIO(b))]
+            got_graph = [stmt_text(x) for x in parse_jelly_to_graph(io.BytesIO(b)).store]
+        except Exception as e:  # noqa: BLE001
+            ctx.fail(f"grouped / to-graph parser raised {type(e).__name__} on a valid stream", dict(bytes=b.hex(), cfg=s["cfg"]))
+            continue
+        if got_grouped != per_frame:
+            ctx.fail("parse_jelly_grouped differs from the per-frame denotation of the stream",
+                     dict(bytes=b.hex(), cfg=s["cfg"], got=str(got_grouped)[:1500], want=str(per_frame)[:1500]))
+        if got_graph != want_st:
+            ctx.fail("parse_jelly_to_graph differs from the stream's denotation", dict(bytes=b.hex(), cfg=s["cfg"]))
     ctx.corr("PARSE", reqs, resp)
     ctx.extra["reference_encoder_choices"] = dict(stats)
     # the same streams consumed by several parsers that are alive at the same time (generators advanced in turns)
@@ -939,10 +1056,17 @@ def check_C07(ctx: Ctx) -> None:
             if flat != base:
                 ctx.fail("flat parse depends on frame boundaries", dict(bytes=b.hex(), got=flat[:1500], want=base[:1500]))
             # (b) grouped: one sink per frame, in order; concatenation = flat; metadata visible while consuming
+            # the metadata is sampled at BOTH ends of a frame's consumption: when the sink for it is created and when
+            # the finished sink is handed over
             md: ContextVar = ContextVar("md")
-            sinks, seen = [], []
+            sinks, seen, seen_at_start = [], [], []
+
+            def factory(md=md, seen_at_start=seen_at_start):
+                seen_at_start.append(dict(md.get({})))
+                return GenericStatementSink()
+
             try:
-                for sk in parse_jelly_grouped(io.BytesIO(b), frame_metadata=md):
+                for sk in parse_jelly_grouped(io.BytesIO(b), factory, frame_metadata=md):
                     sinks.append(sk)
                     seen.append(dict(md.get()))
             except Exception as e:  # noqa: BLE001
@@ -951,7 +1075,10 @@ def check_C07(ctx: Ctx) -> None:
             if len(sinks) != len(frames):
                 ctx.fail(f"grouped parse yields {len(sinks)} sinks for {len(frames)} frames", dict(bytes=b.hex()))
             elif [dict(f.metadata) for f in frames] != seen:
-                ctx.fail("frame metadata seen while building a sink is not that frame's", dict(bytes=b.hex(), seen=str(seen)))
+                ctx.fail("frame metadata seen when a sink is handed over is not that frame's", dict(bytes=b.hex(), seen=str(seen)))
+            elif [dict(f.metadata) for f in frames] != seen_at_start:
+                ctx.fail("frame metadata seen when the sink for a frame is created is not that frame's",
+                         dict(bytes=b.hex(), seen=str(seen_at_start), want=str([dict(f.metadata) for f in frames])))
             else:
                 cat = [st for sk in sinks for st in sk.store]
                 flat_st = [e for e in s["events"] if not hasattr(e, "prefix")]
@@ -970,7 +1097,7 @@ def check_C07(ctx: Ctx) -> None:
         g.bnode = lambda: BlankNode(r.choice(["b0", "b1", "n1"]))
         s = refenc.build_valid_stream(r, g, n_stmts=r.randint(2, 8), physical=r.choice([1, 2, 2, 3, 3]))
         frames = refenc.cut_frames(r, s["rows"], cuts=sorted(r.sample(range(1, len(s["rows"])), min(len(s["rows"]) - 1, r.randint(1, 4)))) if len(s["rows"]) > 1 else [],
-                                   repeat_options_prob=0.0, empty_prob=0.1, metadata_prob=0.0)
+                                   repeat_options_prob=0.0, empty_prob=0.1, metadata_prob=0.4)
         b = refenc.frames_to_bytes(frames, True)
         gen_grouped = impl.run_par("grouped", False, "seek", b)
         if not gen_grouped.endswith(" end"):
@@ -979,12 +1106,29 @@ def check_C07(ctx: Ctx) -> None:
         if any(t == "I" for fr in per_frame for st in fr for t in st.split(",")):
             continue  # rdflib cannot name a graph by the empty IRI (it substitutes a fresh blank node): not pyjelly's doing
         sinks, err = [], None
+        rmd: ContextVar = ContextVar("rmd")
+        seen_start, seen_end = [], []
         try:
+            import rdflib
             from pyjelly.integrations.rdflib.parse import parse_jelly_grouped as rgrouped
-            for sk in rgrouped(io.BytesIO(b)):
+
+            def gf(rmd=rmd, seen_start=seen_start):
+                seen_start.append(dict(rmd.get({})))
+                return rdflib.Graph()
+
+            def df(rmd=rmd, seen_start=seen_start):
+                seen_start.append(dict(rmd.get({})))
+                return rdflib.Dataset()
+
+            for sk in rgrouped(io.BytesIO(b), gf, df, frame_metadata=rmd):
                 sinks.append(rimpl.store_quads(sk))  # contents at the moment the sink is yielded
+                seen_end.append(dict(rmd.get({})))
         except Exception as e:  # noqa: BLE001
             err = type(e).__name__
+        want_md = [dict(f.metadata) for f in frames]
+        if err is None and (seen_start != want_md or seen_end != want_md):
+            ctx.fail("rdflib grouped parse: frame metadata visible when a frame's graph/dataset is created or handed over is not that frame's",
+                     dict(bytes=b.hex(), at_creation=str(seen_start)[:300], at_yield=str(seen_end)[:300], want=str(want_md)[:300]))
         ctx.case(("rdflib-grouped", b.hex()), True)
         ctx.dist["rdflib_grouped_streams"] += 1
         if err or [sorted(set(x)) for x in sinks] != per_frame:
@@ -995,8 +1139,15 @@ def check_C07(ctx: Ctx) -> None:
     for _ in range(ctx.n(150, 1500)):
         cls = r.choice("TQ")
         o = rand_opts(r, cls, lt=r.choice([3, 13] if cls == "T" else [4, 14, 114]), delimited=True)
+        if r.random() < 0.25:
+            # the grouped logical type requested through an explicit (empty, hence falsy) flow object instead
+            o.lt = 0
+            o.flow = ("graphs" if cls == "T" else "datasets", 0, 0)
         k = r.randint(1, 5)
         parts = [gen_fitting(r, cls, o, r.randint(0, 5)) for _ in range(k)]
+        if r.random() < 0.06:
+            # one input larger than the default bounded frame size: still exactly one frame for it
+            parts[r.randrange(k)] = gen_fitting(r, cls, o, 260)
         if not parts[0]:
             parts[0] = gen_fitting(r, cls, o, 1) or parts[0]
         if not parts[0]:
@@ -1317,14 +1468,15 @@ def check_C10(ctx: Ctx) -> None:
         b = s["bytes"]
         full = s["events_text"].split(" ") if s["events_text"] != "_" else []
         # frame end offsets
-        ends, pos = [], 0
+        # ... and, independently of any parser, how many events the frames delivered so far denote
+        ends, pos, events_upto, nev = [], 0, {}, 0
         for f in s["frames"]:
             pos += len(refenc.frames_to_bytes([f], True))
             ends.append(pos)
-        # events per frame via the model-independent route: flat parse of each prefix at frame ends
+            nev += sum(1 for row in f.rows if row.WhichOneof("row") in ("triple", "quad", "namespace"))
+            events_upto[pos] = nev
         ctx.case(b.hex(), True, sample=dict(cfg=s["cfg"], nbytes=len(b), frames=len(ends)))
         ks = range(0, len(b) + 1) if (len(b) <= 400 or not ctx.quick()) else sorted(r.sample(range(len(b) + 1), 400))
-        prefix_at_end = {}
         for k in ks:
             line = impl.run_par("flat", False, "seek", b[:k])
             ctx.dist["cuts"] += 1
@@ -1333,12 +1485,11 @@ def check_C10(ctx: Ctx) -> None:
             if got != full[: len(got)]:
                 ctx.fail("truncated stream yields something that is not a prefix of the original",
                          dict(bytes=b.hex(), cut=k, got=body[:1000], want=s["events_text"][:1000]))
-            if k in ends:
-                prefix_at_end[k] = len(got)
-            # every fully delivered frame must be delivered
+            # every fully delivered frame must be delivered (counted from the frames themselves, not from another parse)
             done = max([e for e in ends if e <= k], default=0)
-            if done and done in prefix_at_end and len(got) < prefix_at_end[done]:
-                ctx.fail("a statement of a fully delivered frame was lost", dict(bytes=b.hex(), cut=k))
+            if done >= 3 and len(got) < events_upto[done]:
+                ctx.fail(f"statements of fully delivered frames were lost: {len(got)} yielded, {events_upto[done]} delivered ({tail})",
+                         dict(bytes=b.hex(), cut=k))
             ctx.dist["outcome:" + tail.lstrip("!")] += 1
             if ctx.quick() and k % 7 != 0 and k not in ends:
                 continue
@@ -1416,6 +1567,29 @@ def check_C13(ctx: Ctx) -> None:
                 if f" v={want_v} " not in opt_line or f"nd={'true' if nd else 'false'}" not in opt_line:
                     ctx.fail(f"StreamParameters(version={ver}, namespace_declarations={nd}){' via replace' if via_replace else ''}: header says {opt_line}",
                              dict(bytes=b.hex(), version=ver, namespace_declarations=nd))
+    # a stream constructed directly with an encoder that was NOT built from the options' preset: the header still tells the
+    # reader the options the stream was given
+    from pyjelly.options import LookupPreset
+    from pyjelly.serialize.streams import GraphStream as _GS, QuadStream as _QS
+    for scls, n_terms in ((TripleStream, 3), (_QS, 4), (_GS, 3)):
+        for preset in ((8, 0, 0), (128, 32, 32), (16, 4, 4), (4000, 150, 32), (300, 7, 1)):
+            for enc_preset in (None, (4000, 150, 32), (64, 8, 8)):
+                for delim in (True, False):
+                    so = SerializerOptions(lookup_preset=LookupPreset(*preset), params=StreamParameters(delimited=delim, stream_name="h"))
+                    encoder = GenericSinkTermEncoder() if enc_preset is None else GenericSinkTermEncoder(lookup_preset=LookupPreset(*enc_preset))
+                    try:
+                        st = scls(encoder=encoder, options=so)
+                        st.enroll()
+                        fr = st.flow.to_stream_frame()
+                        b = impl.frames_bytes([fr] if fr is not None else [], delim)
+                    except Exception as e:  # noqa: BLE001
+                        ctx.dist["mismatched_encoder_refused"] += 1
+                        continue
+                    opt_line = impl.run_par("options", False, "seek", b)
+                    ctx.case(("encoder-mismatch", scls.__name__, preset, enc_preset, delim), True)
+                    if f" n={preset[0]} p={preset[1]} d={preset[2]} " not in opt_line:
+                        ctx.fail(f"{scls.__name__} given options with tables {preset} (encoder built with {enc_preset}) tells the reader {opt_line}",
+                                 dict(bytes=b.hex(), options_preset=list(preset), encoder_preset=enc_preset))
     # strict gates over all 8 logical types x {flat, grouped} parser, reading streams with each logical type
     for lt in gen.LOGICAL:
         for phys in (1, 2, 3):
@@ -1439,6 +1613,28 @@ def check_C13(ctx: Ctx) -> None:
                         ctx.fail(f"strict {entry} parser {'accepts' if ok else 'rejects'} logical type {lt}", dict(bytes=b.hex()))
                     if not strict and not ok:
                         ctx.fail(f"non-strict {entry} parser rejects logical type {lt}", dict(bytes=b.hex(), got=line))
+            # the same gates in the rdflib integration (RDF 1.1 content)
+            import rimpl
+            enc = refenc.RefEncoder(r, physical=phys, logical=lt, sizes=(8, 4, 4))
+            if phys == 3:
+                enc.graph_start(IRI("http://gate/g"))
+            st = (IRI("http://gate/s"), IRI("http://gate/p"), Literal("o"))
+            enc.statement(Quad(*st, IRI("http://gate/g")) if phys == 2 else Triple(*st))
+            if phys == 3:
+                enc.graph_end()
+            rb = refenc.frames_to_bytes([jelly.RdfStreamFrame(rows=enc.rows)], True)
+            for entry, accept in (("flat", lt in (1, 2)), ("grouped", lt in (3, 4, 13, 14, 114))):
+                for strict in (True, False):
+                    if entry == "flat":
+                        ok = rimpl.run_par_flat(strict, "seek", rb).endswith(" end")
+                    else:
+                        ok = rimpl.run_par_grouped(strict, "seek", rb)[1] is None
+                    ctx.case(("rgate", lt, phys, entry, strict), True)
+                    ctx.dist["strict_gate_cases_rdflib"] += 1
+                    if strict and ok != accept:
+                        ctx.fail(f"rdflib strict {entry} parser {'accepts' if ok else 'rejects'} logical type {lt}", dict(bytes=rb.hex()))
+                    if not strict and not ok:
+                        ctx.fail(f"rdflib non-strict {entry} parser rejects logical type {lt}", dict(bytes=rb.hex()))
     # forbidden pairs / small name table / oversized tables / new version on read
     for phys, lt in itertools.product(range(0, 4), gen.LOGICAL):
         row = jelly.RdfStreamRow(options=jelly.RdfStreamOptions(physical_type=phys, logical_type=lt, max_name_table_size=8, version=1))
@@ -2141,12 +2337,7 @@ def check_C20(ctx: Ctx) -> None:
     import common
     model_raw = common.run_driver(reqs)
     for q, a, mraw in zip(reqs, resp, model_raw):
-        m = mraw.replace("~", "")
-        ctx.corr_checked += 1
-        if a != m:
-            ctx.dist["disagree:SERSTEP"] += 1
-            if len(ctx.disagreements) < 20:
-                ctx.disagreements.append(dict(suite="SERSTEP", request=q[:4000], impl=a[:4000], model=m[:4000]))
+        ctx.compare("SERSTEP", q, a, mraw.replace("~", ""))
     spec_reqs, todo = [], []
     for (cls, o, ops, accepted), line, mraw, req in zip(metas, resp, model_raw, reqs):
         toks = line.split(" ")[:-1]
@@ -2240,6 +2431,13 @@ def _hostile(r) -> bytes:
     # unknown fields / groups / wrong wire types
     junk = bytes([r.choice([0x0b, 0x0c, 0x13, 0x1b, 0x08, 0x0d, 0x09, 0x7a, 0x0a])]) + bytes([r.randint(0, 255) for _ in range(r.randint(0, 12))])
     return _varint(len(junk)) + junk
+
+
+def _c17_allowance_kb(b: bytes) -> int:
+    """Peak-RSS growth allowed for one input: a constant, 40x the input size, and 1 KB per REAL leading empty frame
+    (each 0x00 byte at the head of a delimited stream is a whole frame the parser legitimately holds an object for;
+    the property bounds memory in sizes merely DECLARED, not in the number of frames actually received)."""
+    return 48_000 + 40 * len(b) // 1024 + (len(b) - len(b.lstrip(b"\x00")))
 
 
 def _declares_huge_frame(b: bytes) -> bool:
@@ -2351,7 +2549,7 @@ def check_C17(ctx: Ctx) -> None:
         oc = out.rsplit(" ", 1)[-1]
         ctx.dist["outcome:" + (oc if oc.startswith("!") or oc in ("end", "HANG") else "end")] += 1
         raw = ":raw" in entry
-        if raw and (out.endswith("!MemoryError") or (rss - base_rss > 48_000 + 40 * len(b) // 1024)) and _declares_huge_frame(b):
+        if raw and (out.endswith("!MemoryError") or (rss - base_rss > _c17_allowance_kb(b))) and _declares_huge_frame(b):
             # BufferedReader.read(size) allocates the DECLARED frame length up front (parse_length_prefixed)
             ctx.fail(f"non-seekable source: allocation proportional to a declared frame length ({out[-14:]}, +{(rss - base_rss) // 1024} MB)",
                      dict(entry=entry, bytes=b.hex()[:400]), known="C17-declared-frame-length")
@@ -2361,7 +2559,7 @@ def check_C17(ctx: Ctx) -> None:
             ctx.fail(f"parser did not terminate promptly ({ms} ms)", dict(entry=entry, bytes=b.hex()))
         elif out.startswith("!!") or out == "!MemoryError":
             ctx.fail(f"parser ended with {out}", dict(entry=entry, bytes=b.hex()))
-        elif rss - base_rss > 48_000 + 40 * len(b) // 1024:
+        elif rss - base_rss > _c17_allowance_kb(b):
             ctx.fail(f"peak RSS grew by {(rss - base_rss) // 1024} MB while parsing {len(b)} bytes", dict(entry=entry, bytes=b.hex()[:4000]))
             base_rss = rss
         else:
